@@ -104,7 +104,7 @@ func runRC(c *Ctx, s *Sink) {
 				n++
 				key := fmt.Sprintf("%s:recordloop#%d", fname, n)
 				sv := info.ObjectOf(rs.Value.(*ast.Ident))
-				msg := rcCheck(info, b.body, rs, sv, rcFilters[fname])
+				msg := rcCheck(info, b.body, rs, sv, rcFilters[fname] || onlyCalledByFilters(c, p, fd))
 				if msg == "" {
 					s.Pass(nil, key, rs.Pos(), "every path of an iteration forwards (or, in a filter, explicitly discards) the record")
 				} else {
@@ -207,4 +207,28 @@ func rcCheck(info *types.Info, body *ast.BlockStmt, rs *ast.RangeStmt, sv types.
 		return "a path of the per-record loop neither forwards nor explicitly discards the record: it silently disappears from the stream (e.g. records for which a condition is false)"
 	}
 	return ""
+}
+
+// onlyCalledByFilters: fd is an unexported function whose static callers (at least one) are all
+// filter combinators — a block extracted from a filter keeps the filter's licence to discard records.
+func onlyCalledByFilters(c *Ctx, p *packages.Package, fd *ast.FuncDecl) bool {
+	if fd.Name.IsExported() {
+		return false
+	}
+	self := p.TypesInfo.Defs[fd.Name]
+	n, ok := 0, true
+	c.EachFunc([]string{"pkg/obiseq", "pkg/obiiter", "pkg/obichunk"}, func(cp *packages.Package, cfd *ast.FuncDecl) {
+		ast.Inspect(cfd.Body, func(m ast.Node) bool {
+			if call, isCall := m.(*ast.CallExpr); isCall {
+				if f := callee(cp.TypesInfo, call); f != nil && types.Object(f) == self {
+					n++
+					if !rcFilters[funcName(cp, cfd)] {
+						ok = false
+					}
+				}
+			}
+			return true
+		})
+	})
+	return ok && n > 0
 }
